@@ -147,12 +147,12 @@ Proof.
 Qed.
 
 (* One scanner step agrees with the character machine on that line. *)
-Lemma scan_line_correct cursor rs line :
+Lemma scan_line_body_correct cursor rs line :
   line <> [] ->
-  scan_line isN (cursor, rs) line =
+  scan_line_body isN (cursor, rs) line =
   let '(out, o) := runs_line line cursor rs in (out, (cursor + Z.of_nat (length line), o)).
 Proof.
-  intros Hne. unfold scan_line.
+  intros Hne. unfold scan_line_body.
   destruct (existsb isN line) eqn:Hex.
   - destruct (forallb isN line) eqn:Hall.
     + rewrite runs_line_allN by assumption. reflexivity.
@@ -184,44 +184,46 @@ Proof.
   - rewrite runs_line_noN by assumption. reflexivity.
 Qed.
 
+(* every line, the empty one included (skipped by the code: no output, state unchanged) *)
+Lemma scan_line_correct cursor rs line :
+  scan_line isN (cursor, rs) line =
+  let '(out, o) := runs_line line cursor rs in (out, (cursor + Z.of_nat (length line), o)).
+Proof.
+  destruct line as [|c t].
+  - cbn. now replace (cursor + 0) with cursor by lia.
+  - change (scan_line isN (cursor, rs) (c :: t)) with (scan_line_body isN (cursor, rs) (c :: t)).
+    apply scan_line_body_correct. discriminate.
+Qed.
+
 Lemma scan_lines_correct lines : forall cursor rs,
-  Forall (fun l => l <> []) lines ->
   scan_lines isN (cursor, rs) lines =
   let '(out, o) := runs_line (concat lines) cursor rs in
   (out, (cursor + Z.of_nat (length (concat lines)), o)).
 Proof.
-  induction lines as [|l t IH]; intros cursor rs Hne.
+  induction lines as [|l t IH]; intros cursor rs.
   - cbn. now replace (cursor + 0) with cursor by lia.
-  - inversion Hne as [|? ? Hl Ht]; subst.
-    cbn [scan_lines concat]. rewrite scan_line_correct by assumption.
+  - cbn [scan_lines concat]. rewrite scan_line_correct.
     rewrite runs_line_app.
     destruct (runs_line l cursor rs) as [out1 o1].
-    rewrite IH by assumption.
+    rewrite IH.
     destruct (runs_line (concat t) _ o1) as [out2 o2].
     rewrite app_length. f_equal. f_equal. lia.
 Qed.
 
+(* for EVERY list of lines, blank ones included *)
 Theorem regions_of_record_runs lines :
-  Forall (fun l => l <> []) lines ->
   regions_of_record isN lines = runs isN (concat lines).
 Proof.
-  intros Hne. unfold regions_of_record, runs, runs_from.
-  rewrite scan_lines_correct by assumption.
+  unfold regions_of_record, runs, runs_from.
+  rewrite scan_lines_correct.
   destruct (runs_line (concat lines) 0 None) as [out o]. reflexivity.
 Qed.
 
 End ScanProofs.
 
-Lemma chars_nonempty (s : string) : s <> ""%string -> chars s <> [].
-Proof. destruct s; [congruence|]. cbn. congruence. Qed.
-
 Lemma get_regions_record_runs (lines : list string) :
-  Forall (fun l => l <> ""%string) lines ->
   get_regions_record lines = runs isN_ascii (concat (map Str.chars lines)).
-Proof.
-  intros H. unfold get_regions_record. apply regions_of_record_runs.
-  induction H as [|l t Hl Ht IH]; cbn [map]; constructor; auto using chars_nonempty.
-Qed.
+Proof. unfold get_regions_record. apply regions_of_record_runs. Qed.
 
 (* ---------------------------------------------------------------------- *)
 (* The specification function `runs` against the mathematical object:
@@ -365,6 +367,20 @@ Theorem runs_sep (s : list A) : sep_from 1 (-1) (runs isN s).
 Proof. exact (runs_from_sep s 0 None). Qed.
 
 End RunsChar.
+
+Lemma sep_from_nonempty p l : sep_from 1 p l -> Forall (fun q => p + 1 <= fst q < snd q) l.
+Proof.
+  revert p. induction l as [|[a b] t IH]; intros p H; [constructor|].
+  cbn in H. destruct H as (H1 & H2 & H3). constructor; [cbn; lia|].
+  eapply Forall_impl; [|apply (IH b H3)]. cbn. intros q Hq. lia.
+Qed.
+
+Lemma get_regions_record_nonempty (lines : list string) :
+  Forall (fun p => 0 <= fst p < snd p) (get_regions_record lines).
+Proof.
+  rewrite get_regions_record_runs.
+  eapply Forall_impl; [|apply (sep_from_nonempty (-1)), (runs_sep isN_ascii)]. cbn. intros q Hq. lia.
+Qed.
 
 Lemma noncanonical_spec (name : string) :
   is_canonical_contig_name name = false <->
